@@ -51,7 +51,7 @@ func setupCommitted(o *opts, r *rng, s *summary, fam string, i int, kinds []stri
 	var pool [][]byte
 	c.kind = kinds[r.intn(len(kinds))]
 	c.artPath = []string{"out", "data/out"}[r.intn(2)]
-	if c.kind == "file" {
+	if c.kind == "file" || c.kind == "skipfile" || c.kind == "inputfile" {
 		c.art = nFile(genContent(r, &pool))
 	} else {
 		c.art = genTree(r, 0, to, &pool, s)
@@ -59,7 +59,14 @@ func setupCommitted(o *opts, r *rng, s *summary, fam string, i int, kinds []stri
 	abs := filepath.Join(p.Root, c.artPath)
 	must(os.MkdirAll(filepath.Dir(abs), 0o755))
 	materialize(abs, c.art, p.CacheDir)
-	p.writeStage("s.yaml", &StageRec{Out: []Art{{Path: c.artPath, IsDir: c.kind != "file", NoRec: c.kind == "norec"}}})
+	switch c.kind {
+	case "skipfile":
+		p.writeStage("s.yaml", &StageRec{Out: []Art{{Path: c.artPath, Skip: true}}})
+	case "inputfile":
+		p.writeStage("s.yaml", &StageRec{Cmd: "true", In: []Art{{Path: c.artPath}}})
+	default:
+		p.writeStage("s.yaml", &StageRec{Out: []Art{{Path: c.artPath, IsDir: c.kind != "file", NoRec: c.kind == "norec"}}})
+	}
 	res := p.dud("", "stage", "add", "s.yaml")
 	if res.Exit != 0 {
 		must(fmt.Errorf("stage add failed: %s", res.Stderr))
@@ -548,7 +555,7 @@ func runEdits(o *opts) {
 	distinct := map[string]bool{}
 	for i := 0; i < n; i++ {
 		rr := r.fork()
-		c := setupCommitted(o, rr, s, "edits", i, []string{"file", "dir", "dir", "norec"}, treeOpts{maxDepth: 2, maxFan: 4, hostile: rr.chance(1, 3), allowEmptyDir: true})
+		c := setupCommitted(o, rr, s, "edits", i, []string{"file", "dir", "dir", "norec", "skipfile", "inputfile"}, treeOpts{maxDepth: 2, maxFan: 4, hostile: rr.chance(1, 3), allowEmptyDir: true})
 		if !c.ts[0].OK {
 			c.cleanup()
 			continue
